@@ -28,7 +28,7 @@
 (* CancelOnError, BusyKeepsState.                                                               *)
 EXTENDS Integers, Sequences, FiniteSets, TLC
 
-CONSTANTS NPages, Readers, MaxWrites, MaxCkpt, MaxReaderStarts,
+CONSTANTS NPages, Readers, MaxWrites, MaxCkpt,
           ReaderPoints,       \* the attempt steps (values of pc) at which readers may start / stop
           CanonicalPages,     \* TRUE: pages are first written in the order 1, 2, 3, ... (see below)
           DisarmOnTruncate, ArmOnAllMoved, ResumeFromArmed, ResetBySalt, CancelOnError, BusyKeepsState
@@ -37,9 +37,11 @@ Page == 1..NPages
 ReaderSym == Permutations(Readers)
 AllPoints == {"idle", "check", "compact", "sqlite", "classify", "finish"}
 (* Reader steps touch only rd (and read nBackfill, Len(wal)); of the attempt steps only CkSqlite reads rd *)
-(* or writes nBackfill / wal.  Reader steps therefore commute with every other attempt step, and        *)
-(* {"idle", "sqlite"} (= immediately before the SQLite checkpoint, and between attempts) reaches the    *)
-(* same states at pc = "idle" as AllPoints; Checkpoint_mc_allpoints.cfg confirms it on smaller bounds.  *)
+(* or writes nBackfill / wal.  Reader steps therefore commute with every other attempt step: a reader    *)
+(* step taken at pc = "sqlite" (or anywhere else inside an attempt) leads to a state that is also reached *)
+(* by taking it at pc = "idle" first.  ReaderPoints = {"idle"} therefore reaches exactly the same set of  *)
+(* states as AllPoints (measured: identical state counts); Checkpoint_mc_allpoints.cfg explores all       *)
+(* positions explicitly on a smaller bound.                                                               *)
 
 VARIABLES
   \* ---- SQLite
@@ -59,7 +61,7 @@ VARIABLES
   nstaged,    \* number of closed segment files
   tmp,        \* an unclosed staging file exists
   \* ---- history / bounds
-  nw, nck, nrs,
+  nw, nck,
   fresh,      \* the last attempt succeeded and nothing was written since
   leftover,   \* a failed attempt left its segment file behind
   resetSince, \* SQLite restarted the WAL (in a write) since the watch was armed
@@ -68,9 +70,12 @@ VARIABLES
 svars == <<dbf, wal, nBackfill, hdr, salt, rd>>
 mvars == <<armed, aSalt, aIdx>>
 stvars == <<rebuilt, nstaged, tmp>>
-hvars == <<nw, nck, nrs, fresh, leftover, resetSince, capUpTo>>
+hvars == <<nw, nck, fresh, leftover, resetSince, capUpTo>>
 vars == <<dbf, wal, nBackfill, hdr, salt, rd, armed, aSalt, aIdx, pc, att, rebuilt, nstaged, tmp,
-          nw, nck, nrs, fresh, leftover, resetSince, capUpTo>>
+          nw, nck, fresh, leftover, resetSince, capUpTo>>
+(* model checking view: the number of closed segment files influences nothing *)
+MCView == <<dbf, wal, nBackfill, hdr, salt, rd, armed, aSalt, aIdx, pc, att, rebuilt, tmp,
+            nw, nck, fresh, leftover, resetSince, capUpTo>>
 
 Att0 == [start |-> 0, reset |-> FALSE, wasReset |-> FALSE, seg |-> <<>>, code |-> 0, pages |-> 0,
          moved |-> 0, out |-> "none", err |-> FALSE]
@@ -103,11 +108,9 @@ DbReaders == {r \in Readers : rd[r] = 0}
 FullyBackfilled == nBackfill = Len(wal)
 
 ReaderStart(r) ==
-  /\ rd[r] = -1 /\ nrs < MaxReaderStarts /\ pc \in ReaderPoints
+  /\ rd[r] = -1 /\ pc \in ReaderPoints
   /\ rd' = [rd EXCEPT ![r] = IF FullyBackfilled THEN 0 ELSE Len(wal)]
-  /\ nrs' = nrs + 1
-  /\ UNCHANGED <<dbf, wal, nBackfill, hdr, salt, mvars, pc, att, stvars,
-                 nw, nck, fresh, leftover, resetSince, capUpTo>>
+  /\ UNCHANGED <<dbf, wal, nBackfill, hdr, salt, mvars, pc, att, stvars, hvars>>
 ReaderStop(r) ==
   /\ rd[r] # -1 /\ pc \in ReaderPoints
   /\ rd' = [rd EXCEPT ![r] = -1]
@@ -126,7 +129,7 @@ SqWrite(S, restart) ==
           /\ salt' = IF hdr THEN salt ELSE salt + 1      \* first frame of an empty file writes a header
           /\ hdr' = TRUE
           /\ UNCHANGED <<resetSince, capUpTo>>
-  /\ UNCHANGED <<dbf, rd, mvars, pc, att, stvars, nck, nrs, leftover>>
+  /\ UNCHANGED <<dbf, rd, mvars, pc, att, stvars, nck, leftover>>
 (* Page symmetry.  Renaming pages maps behaviours to behaviours except for the order of the frames  *)
 (* inside one transaction (ascending page number), and no guard or invariant depends on that order *)
 (* (every page occurs at most once in a transaction; marks, nBackfill, start and resume indexes are *)
@@ -163,7 +166,7 @@ CkBeginWith(has) ==
   /\ IF ~has
      THEN UNCHANGED <<pc, att, tmp>>      \* store: ErrNoWALToSnapshot, the manager is not called
      ELSE pc' = "check" /\ att' = Att0 /\ tmp' = TRUE     \* StagingDir.CreateWAL
-  /\ UNCHANGED <<svars, mvars, rebuilt, nstaged, nw, nrs, fresh, leftover, resetSince, capUpTo>>
+  /\ UNCHANGED <<svars, mvars, rebuilt, nstaged, nw, fresh, leftover, resetSince, capUpTo>>
 CkBegin == CkBeginWith(hdr)
 
 Arm(s, i) == armed' = TRUE /\ aSalt' = s /\ aIdx' = i
@@ -177,7 +180,7 @@ CkCheckWith(start, reset) ==
   /\ att' = [att EXCEPT !.wasReset = armed /\ resetSince, !.start = start, !.reset = reset]
   /\ IF reset THEN Disarm /\ resetSince' = FALSE ELSE UNCHANGED <<mvars, resetSince>>
   /\ pc' = "compact"
-  /\ UNCHANGED <<svars, stvars, nw, nck, nrs, fresh, leftover, capUpTo>>
+  /\ UNCHANGED <<svars, stvars, nw, nck, fresh, leftover, capUpTo>>
 CkCheck == CkCheckWith(WatchStart, WatchReset)
 
 (* NewCompactingFrameScanner(walFD, start) + Writer.WriteTo(w) *)
@@ -200,7 +203,7 @@ CkClassify ==
           ELSE /\ att' = [att EXCEPT !.out = "allmoved", !.err = FALSE]
                /\ Arm(salt, att.moved) /\ resetSince' = FALSE
   /\ pc' = "finish"
-  /\ UNCHANGED <<svars, stvars, nw, nck, nrs, fresh, leftover, capUpTo>>
+  /\ UNCHANGED <<svars, stvars, nw, nck, fresh, leftover, capUpTo>>
 
 (* store.fsmSnapshot after the manager returned: error -> walWriter.Cancel, success -> walWriter.Close *)
 StoreFinish ==
@@ -214,7 +217,7 @@ StoreFinish ==
           /\ capUpTo' = Len(wal)
           /\ UNCHANGED leftover
   /\ tmp' = FALSE /\ pc' = "idle" /\ att' = Att0
-  /\ UNCHANGED <<svars, mvars, nw, nck, nrs, resetSince>>
+  /\ UNCHANGED <<svars, mvars, nw, nck, resetSince>>
 
 (* ------------------------------------------------------------------ *)
 Zero == [p \in Page |-> 0]
@@ -225,7 +228,7 @@ ResetAll ==
   /\ armed' = FALSE /\ aSalt' = 0 /\ aIdx' = 0
   /\ pc' = "idle" /\ att' = Att0
   /\ rebuilt' = Zero /\ nstaged' = 0 /\ tmp' = FALSE
-  /\ nw' = 0 /\ nck' = 0 /\ nrs' = 0 /\ fresh' = FALSE /\ leftover' = FALSE /\ resetSince' = FALSE
+  /\ nw' = 0 /\ nck' = 0 /\ fresh' = FALSE /\ leftover' = FALSE /\ resetSince' = FALSE
   /\ capUpTo' = 0
 Init ==
   /\ dbf = Zero /\ wal = <<>> /\ nBackfill = 0 /\ hdr = FALSE /\ salt = 0
@@ -233,7 +236,7 @@ Init ==
   /\ armed = FALSE /\ aSalt = 0 /\ aIdx = 0
   /\ pc = "idle" /\ att = Att0
   /\ rebuilt = Zero /\ nstaged = 0 /\ tmp = FALSE
-  /\ nw = 0 /\ nck = 0 /\ nrs = 0 /\ fresh = FALSE /\ leftover = FALSE /\ resetSince = FALSE
+  /\ nw = 0 /\ nck = 0 /\ fresh = FALSE /\ leftover = FALSE /\ resetSince = FALSE
   /\ capUpTo = 0
 
 Next ==
